@@ -437,4 +437,458 @@ theorem readList_ok (bits : Bits) (pos : Int) (ts : List Tok) (vs : List Val) (f
   rename_i after hafter
   exact readItems_ok bits after ds pos vs fp (toDTs_wf ts ds hneg hds) h0 h1 h
 
+/-! ### invariant -/
+
+theorem setBitPos_inv (s : Stream) (p : Int) (hi : Inv s) : Inv (setBitPos s p).1 := by
+  unfold setBitPos
+  split; · exact hi
+  split; · exact hi
+  unfold Inv Stream.len at *; simp only; omega
+
+theorem afterLenChange_inv (s : Stream) (nb : Bits) (hi : Inv s) : Inv (afterLenChange s nb) := by
+  unfold afterLenChange Inv at *
+  simp only
+  split
+  · omega
+  · rename_i h; have : nb.length = s.bits.length := by simpa using h
+    omega
+
+theorem head?_mem' {α} (l : List α) (x : α) (h : l.head? = some x) : x ∈ l := by
+  cases l with
+  | nil => cases h
+  | cons a t => simp at h; subst h; exact List.mem_cons_self ..
+
+theorem pick_mem (o : List Nat) (last : Bool) (p : Nat) (h : pick o last = some p) : p ∈ o := by
+  unfold pick at h
+  cases last
+  · simp only [Bool.false_eq_true, if_false] at h; exact head?_mem' _ _ h
+  · simp only [if_true] at h; exact List.mem_of_getLast? h
+
+/-- `find` / `rfind`: either nothing moves, or the position is an occurrence inside the validated range. -/
+theorem findCommon_cases (s : Stream) (pat : Bits) (a b : Option Int) (al last : Bool) :
+    ((findCommon s pat a b al last).1 = s ∧ ∀ p, (findCommon s pat a b al last).2 ≠ .found (some p)) ∨
+    ∃ x y p, validateSlice s.bits.length a b = .ok (x, y) ∧ pick (occ s.bits pat x y al) last = some p
+      ∧ findCommon s pat a b al last = ({ s with pos := p }, .found (some p)) := by
+  unfold findCommon
+  by_cases hp : pat.isEmpty = true
+  · left; simp [hp]
+  · simp only [hp]
+    cases hv : validateSlice s.bits.length a b with
+    | error e => left; simp
+    | ok xy =>
+      obtain ⟨x, y⟩ := xy
+      simp only
+      cases ho : pick (occ s.bits pat x y al) last with
+      | none => left; simp
+      | some p => right; exact ⟨x, y, p, rfl, ho, by simp⟩
+
+theorem findCommon_inv (s : Stream) (pat : Bits) (a b : Option Int) (al last : Bool) (hi : Inv s) :
+    Inv (findCommon s pat a b al last).1 := by
+  rcases findCommon_cases s pat a b al last with ⟨h, _⟩ | ⟨x, y, p, _, hp, h⟩
+  · rw [h]; exact hi
+  · rw [h]
+    have hm := pick_mem _ _ _ hp
+    rw [mem_occ] at hm
+    unfold Inv; simp only; omega
+
+theorem inv_ite (c : Prop) [Decidable c] (x y : Stream × Res) (hx : c → Inv x.1) (hy : ¬ c → Inv y.1) :
+    Inv (if c then x else y).1 := by
+  by_cases h : c
+  · rw [if_pos h]; exact hx h
+  · rw [if_neg h]; exact hy h
+
+theorem insertAt_inv (s : Stream) (b : Bits) (p : Option Int) (hi : Inv s) : Inv (insertAt s b p).1 := by
+  unfold insertAt
+  apply inv_ite
+  · intro _; exact hi
+  · intro _
+    simp only
+    apply inv_ite
+    · intro hq
+      unfold Inv Stream.len at *; simp only [List.length_append, List.length_take, List.length_drop]
+      omega
+    · intro _; exact hi
+
+theorem replaceWith_inv (s : Stream) (old new : Bits) (a b c : Option Int) (al : Bool) (hi : Inv s) :
+    Inv (replaceWith s old new a b c al).1 := by
+  unfold replaceWith
+  apply inv_ite; · intro _; exact hi
+  intro _
+  apply inv_ite; · intro _; exact hi
+  intro _
+  cases hv : validateSlice s.bits.length a b with
+  | error e => exact hi
+  | ok xy =>
+    obtain ⟨x, y⟩ := xy
+    simp only
+    apply inv_ite; · intro _; exact hi
+    intro _
+    exact afterLenChange_inv _ _ hi
+
+theorem imul_len (b : Bits) (n : Nat) : ((List.replicate n b).flatten).length = n * b.length := by
+  simp [List.length_flatten, List.map_replicate, List.sum_replicate_nat]
+
+theorem inv_stepCore (s : Stream) (op : Op) (hi : Inv s) (hs : invSafe s op = true) : Inv (stepCore s op).1 := by
+  have hi' := hi
+  obtain ⟨h0, h1⟩ := hi
+  cases op <;> simp only [stepCore]
+  case read t =>
+    cases h : readTok s t with
+    | error e => exact hi'
+    | ok r =>
+      obtain ⟨v, np⟩ := r
+      obtain ⟨k, hk1, hk2, _, _⟩ := readTok_ok s t v np hi' h
+      unfold Inv Stream.len at *; simp only; omega
+  case peek t =>
+    cases h : readTok s t with
+    | error e => exact hi'
+    | ok r => exact hi'
+  case readlist ts =>
+    cases h : readList s.bits s.pos ts with
+    | error e => exact hi'
+    | ok r =>
+      obtain ⟨vs, np⟩ := r
+      have hneg : negCountList ts = false := by
+        simp [invSafe, readlist_negative_count, property_assignment_shrinks] at hs; simpa using hs
+      have := readList_ok s.bits s.pos ts vs np hneg h0 h1 h
+      unfold Inv; simp only; omega
+  case peeklist ts =>
+    cases h : readList s.bits s.pos ts with
+    | error e => exact hi'
+    | ok r => exact hi'
+  case readto pat al =>
+    rcases findCommon_cases s pat (some s.pos) none al false with ⟨_, hne⟩ | ⟨x, y, p, _, hp, h⟩
+    · cases hf : findCommon s pat (some s.pos) none al false with
+      | mk s1 r1 =>
+        rw [hf] at hne
+        cases r1 with
+        | found o => cases o with
+          | none => exact hi'
+          | some p => exact absurd rfl (hne p)
+        | err e => exact hi'
+        | _ => exact hi'
+    · rw [h]
+      have hm := pick_mem _ _ _ hp
+      rw [mem_occ] at hm
+      unfold Inv; simp only; omega
+  case bytealign =>
+    cases hb : setBitPos s (s.pos + (8 - s.pos % 8) % 8) with
+    | mk s1 r1 =>
+      have := setBitPos_inv s (s.pos + (8 - s.pos % 8) % 8) hi'
+      rw [hb] at this
+      cases r1 <;> exact this
+  case setPos n => exact setBitPos_inv s n hi'
+  case getBytePos => apply inv_ite <;> intro _ <;> exact hi'
+  case setBytePos n => exact setBitPos_inv s _ hi'
+  case find pat a b al => exact findCommon_inv s pat a b al false hi'
+  case rfind pat a b al => exact findCommon_inv s pat a b al true hi'
+  case append b => unfold Inv; simp; omega
+  case iadd b => unfold Inv; simp; omega
+  case appendSelf => unfold Inv; simp
+  case iaddSelf => unfold Inv; simp
+  case prepend b => unfold Inv; simp; omega
+  case prependSelf => unfold Inv; simp
+  case insert b p => exact insertAt_inv s b p hi'
+  case insertSelf p => exact insertAt_inv s s.bits p hi'
+  case overwrite b p =>
+    apply inv_ite; · intro _; exact hi'
+    intro _
+    try simp only
+    apply inv_ite; · intro _; exact hi'
+    intro hq
+    unfold Inv Stream.len at *; simp only [List.length_append, List.length_take, List.length_drop]
+    omega
+  case setSlice a b v => exact afterLenChange_inv _ _ hi'
+  case setIdxBits i v =>
+    try simp only
+    apply inv_ite; · intro _; exact hi'
+    intro _; exact afterLenChange_inv _ _ hi'
+  case setIdxInt i v =>
+    apply inv_ite; · intro _; exact hi'
+    intro _
+    try simp only
+    apply inv_ite; · intro _; exact hi'
+    intro _
+    unfold Inv; simp only [List.length_set]; exact hi'
+  case delSlice a b c =>
+    apply inv_ite; · intro _; exact hi'
+    intro _; exact afterLenChange_inv _ _ hi'
+  case delIdx i =>
+    try simp only
+    apply inv_ite; · intro _; exact hi'
+    intro _; exact afterLenChange_inv _ _ hi'
+  case replace old new a b c al => exact replaceWith_inv s old new a b c al hi'
+  case replaceSelf old a b c al => exact replaceWith_inv s old s.bits a b c al hi'
+  case clear => unfold Inv; simp
+  case setProp nb =>
+    cases nb with
+    | none => exact hi'
+    | some nb =>
+      simp [invSafe, readlist_negative_count, property_assignment_shrinks] at hs
+      unfold Inv; simp only; omega
+  case setUint v =>
+    try simp only
+    apply inv_ite; · intro _; exact hi'
+    intro _
+    apply inv_ite; · intro _; exact hi'
+    intro _
+    unfold Inv; simp only [natToBits_length]; exact hi'
+  case mutate m =>
+    cases hm : applyMut s.bits m with
+    | error e => exact hi'
+    | ok r =>
+      obtain ⟨nb, ro⟩ := r
+      have hl := applyMut_length s.bits m nb ro hm
+      cases ro <;> (unfold Inv; simp only; omega)
+  case imul n =>
+    apply inv_ite; · intro _; exact hi'
+    intro hn
+    apply inv_ite
+    · intro _; unfold Inv; simp
+    · intro hn0
+      unfold Inv; simp only [imul_len]
+      have : (1 : Int) ≤ n.toNat := by omega
+      have h2 : (s.bits.length : Int) ≤ (n.toNat * s.bits.length : Nat) := by
+        have : 1 * s.bits.length ≤ n.toNat * s.bits.length := Nat.mul_le_mul_right _ (by omega)
+        omega
+      omega
+  all_goals (first | exact hi' | (apply inv_ite <;> intro _ <;> first | exact hi' | (unfold Inv; simp)))
+
+theorem inv_step (s : Stream) (op : Op) (hi : Inv s) (hs : invSafe s op = true) : Inv (step s op).1 := by
+  unfold step
+  apply inv_ite
+  · intro _; exact hi
+  · intro _; exact inv_stepCore s op hi hs
+
+theorem run_cons (s : Stream) (op : Op) (rest : List Op) :
+    run s (op :: rest) = if Inv (step s op).1 then (step s op) :: run (step s op).1 rest else [step s op] := by
+  simp only [run]
+
+theorem inv_run' (s : Stream) (ops : List Op) (hi : Inv s) (hs : safeRun s ops = true) :
+    (∀ o ∈ run s ops, Inv o.1) ∧ (run s ops).length = ops.length := by
+  induction ops generalizing s with
+  | nil => simp [run]
+  | cons op rest ih =>
+    simp only [safeRun, Bool.and_eq_true] at hs
+    have h1 := inv_step s op hi hs.1
+    rw [run_cons, if_pos h1]
+    obtain ⟨ih1, ih2⟩ := ih (step s op).1 h1 hs.2
+    constructor
+    · intro o ho
+      cases ho with
+      | head => exact h1
+      | tail _ hm => exact ih1 o hm
+    · simp [ih2]
+
+theorem step_eq_core (s : Stream) (op : Op) (h : op.isMutator = true → s.mutable = true) :
+    step s op = stepCore s op := by
+  unfold step
+  split
+  · rename_i hc
+    simp only [Bool.and_eq_true, Bool.not_eq_true'] at hc
+    have := h hc.1
+    rw [this] at hc; cases hc.2
+  · rfl
+
+/-! ### streams among returned values start at 0 -/
+
+def Val.posZero : Val → Prop
+  | .stream _ p => p = 0
+  | _ => True
+
+theorem decode_posZero (k : Kind) (b : Bits) (v : Val) (h : decode k b = .ok v) : v.posZero := by
+  cases k <;> simp only [decode] at h
+  case bool =>
+    match b, h with
+    | [x], h => cases h; trivial
+  all_goals (first | (cases h; trivial; done) | (split at h <;> cases h <;> trivial))
+
+theorem readRDT_posZero (bits : Bits) (pos : Int) (r : RDT) (v : Val) (np : Int)
+    (h : readRDT bits pos r = .ok (v, np)) : v.posZero := by
+  cases r with
+  | fixed k bl =>
+    simp only [readRDT] at h
+    cases hf : readFixed bits pos k bl with
+    | error e => rw [hf] at h; cases h
+    | ok v' =>
+      rw [hf] at h; cases h
+      unfold readFixed at hf
+      split at hf
+      · exact decode_posZero _ _ _ hf
+      · split at hf
+        · cases hf
+        · exact decode_posZero _ _ _ hf
+  | var vk =>
+    simp only [readRDT, readVar] at h
+    cases vk <;> simp only at h <;> split at h <;> cases h <;> trivial
+
+theorem readTok_posZero (s : Stream) (t : Tok) (v : Val) (np : Int) (h : readTok s t = .ok (v, np)) : v.posZero := by
+  unfold readTok at h
+  split at h
+  · split at h; · cases h
+    split at h; · cases h
+    cases h; rfl
+  · split at h; · cases h
+    split at h; · cases h
+    split at h; · cases h
+    rename_i v' np' hr
+    split at h; · cases h
+    cases h
+    exact readRDT_posZero _ _ _ _ _ hr
+
+theorem readItems_posZero (bits : Bits) (after : Int) (ds : List DT) (pos : Int) (vs : List Val) (fp : Int)
+    (h : readItems bits after ds pos = .ok (vs, fp)) : ∀ v ∈ vs, v.posZero := by
+  induction ds generalizing pos vs with
+  | nil => simp only [readItems] at h; cases h; intro v hv; cases hv
+  | cons d rest ih =>
+    simp only [readItems] at h
+    split at h; · cases h
+    split at h; · cases h
+    rename_i v np hrd
+    split at h; · cases h
+    rename_i vs' fp' hrest
+    cases h
+    have h1 := readRDT_posZero _ _ _ _ _ hrd
+    have h2 := ih np vs' hrest
+    intro w hw
+    split at hw
+    · exact h2 w hw
+    · cases hw with
+      | head => exact h1
+      | tail _ hm => exact h2 w hm
+
+theorem readList_posZero (bits : Bits) (pos : Int) (ts : List Tok) (vs : List Val) (fp : Int)
+    (h : readList bits pos ts = .ok (vs, fp)) : ∀ v ∈ vs, v.posZero := by
+  unfold readList at h
+  split at h; · cases h
+  split at h; · cases h
+  exact readItems_posZero _ _ _ _ _ _ h
+
+theorem toDT_known_of_not_open (t : Tok) (d : DT) (ho : t.isOpen = false) (h : t.toDT = .ok d) : ∃ r, d = .known r := by
+  cases t with
+  | count n => simp only [Tok.toDT] at h; cases h; exact ⟨_, rfl⟩
+  | fixed k n =>
+    simp only [Tok.toDT] at h
+    cases hm : mkDtype k n with
+    | error e => rw [hm] at h; cases h
+    | ok r => rw [hm] at h; cases h; exact ⟨_, rfl⟩
+  | stretchy k =>
+    cases k <;> simp [Tok.isOpen] at ho
+    simp only [Tok.toDT] at h
+    cases hm : mkDtype .bool 1 with
+    | error e => rw [hm] at h; cases h
+    | ok r => rw [hm] at h; cases h; exact ⟨_, rfl⟩
+  | var v => simp only [Tok.toDT] at h; cases h; exact ⟨_, rfl⟩
+
+/-- A single read is the dtype's `read_fn` (the rollback check never fires for a well-formed dtype). -/
+theorem readTok_eq_known (s : Stream) (t : Tok) (r : RDT) (hi : Inv s) (hd : t.toDT = .ok (.known r)) (hw : r.wf) :
+    readTok s t = readRDT s.bits s.pos r := by
+  obtain ⟨h0, h1⟩ := hi
+  have key : (match readRDT s.bits s.pos r with
+      | .error e => (.error e : Except Err (Val × Int))
+      | .ok (v, np) => if np > s.len then .error .read else .ok (v, np)) = readRDT s.bits s.pos r := by
+    cases hr : readRDT s.bits s.pos r with
+    | error e => rfl
+    | ok x =>
+      obtain ⟨v, np⟩ := x
+      obtain ⟨k, hk1, hk2, _, _⟩ := readRDT_ok s.bits s.pos r v np h0 h1 hw hr
+      simp only
+      rw [if_neg (by unfold Stream.len; omega)]
+  cases t with
+  | count n =>
+    simp only [Tok.toDT] at hd; cases hd
+    obtain ⟨hn, _⟩ := hw
+    simp only [readTok, readRDT, readFixed]
+    unfold Stream.len
+    have hb : ¬ (Kind.bits = Kind.bool) := by decide
+    rw [if_neg (show ¬ n < 0 by omega), if_neg hb]
+    by_cases hs : n > (s.bits.length : Int) - s.pos
+    · rw [if_pos hs, if_pos (by omega)]
+    · rw [if_neg hs, if_neg (by omega)]; simp only [decode]
+  | fixed k n => simp only [readTok, hd, resolve]; exact key
+  | stretchy k => simp only [readTok, hd, resolve]; exact key
+  | var v => simp only [readTok, hd, resolve]; exact key
+
+theorem readTok_toDT_err (s : Stream) (t : Tok) (e : Err) (hd : t.toDT = .error e) : readTok s t = .error e := by
+  cases t with
+  | count n => simp [Tok.toDT] at hd
+  | fixed k n => simp only [readTok, hd]
+  | stretchy k => simp only [readTok, hd]
+  | var v => simp [Tok.toDT] at hd
+
+theorem scan_known (ds : List DT) (h : ∀ d ∈ ds, ∃ r, d = .known r) : scanStretchy ds false 0 = .ok 0 := by
+  induction ds with
+  | nil => rfl
+  | cons d rest ih =>
+    obtain ⟨r, hr⟩ := h d (List.mem_cons_self ..)
+    subst hr
+    cases r with
+    | fixed k bl => simp only [scanStretchy, Bool.false_eq_true, if_false]; exact ih (fun d hd => h d (List.mem_cons_of_mem _ hd))
+    | var v => simp only [scanStretchy, Bool.false_eq_true, if_false]; exact ih (fun d hd => h d (List.mem_cons_of_mem _ hd))
+
+theorem readSeq_iff (ts : List Tok) (s : Stream) (hi : Inv s)
+    (ho : ∀ t ∈ ts, t.isOpen = false) (hneg : negCountList ts = false) (res : List Val × Int) :
+    (∃ ds, toDTs ts = .ok ds ∧ readItems s.bits 0 ds s.pos = .ok res) ↔ readSeq s ts = .ok res := by
+  induction ts generalizing s res with
+  | nil => simp [toDTs, readItems, readSeq]
+  | cons t rest ih =>
+    have ho' : ∀ t ∈ rest, t.isOpen = false := fun t ht => ho t (List.mem_cons_of_mem _ ht)
+    simp only [negCountList, List.any_cons, Bool.or_eq_false_iff] at hneg
+    have hneg' : negCountList rest = false := by simpa [negCountList] using hneg.2
+    have hnn : ∀ n, t = .count n → 0 ≤ n := by intro n hn; subst hn; simpa using hneg.1
+    simp only [toDTs, readSeq]
+    cases hd : t.toDT with
+    | error e =>
+      rw [readTok_toDT_err s t e hd]
+      simp
+    | ok d =>
+      obtain ⟨r, hr⟩ := toDT_known_of_not_open t d (ho t (List.mem_cons_self ..)) hd
+      subst hr
+      have hw : r.wf := toDT_wf t _ hnn hd
+      rw [readTok_eq_known s t r hi hd hw]
+      cases hrd : readRDT s.bits s.pos r with
+      | error e =>
+        constructor
+        · rintro ⟨ds, h1, h2⟩
+          cases hds : toDTs rest with
+          | error e' => rw [hds] at h1; cases h1
+          | ok ds' =>
+            rw [hds] at h1; cases h1
+            simp only [readItems, resolve, hrd] at h2
+            cases h2
+        · intro h; cases h
+      | ok x =>
+        obtain ⟨v, np⟩ := x
+        obtain ⟨k, hk1, hk2, _, _⟩ := readRDT_ok s.bits s.pos r v np hi.1 hi.2 hw hrd
+        have hi2 : Inv { s with pos := np } := by have := hi.1; unfold Inv; simp only; omega
+        have IH := ih { s with pos := np } hi2 ho' hneg'
+        simp only
+        constructor
+        · rintro ⟨ds, h1, h2⟩
+          cases hds : toDTs rest with
+          | error e' => rw [hds] at h1; cases h1
+          | ok ds' =>
+            rw [hds] at h1; cases h1
+            simp only [readItems, resolve, hrd] at h2
+            cases hri : readItems s.bits 0 ds' np with
+            | error e' => rw [hri] at h2; cases h2
+            | ok y =>
+              rw [hri] at h2
+              have := (IH y).1 ⟨ds', hds, hri⟩
+              rw [this]
+              obtain ⟨vs, fp⟩ := y
+              simpa using h2
+        · intro h
+          cases hrs : readSeq { s with pos := np } rest with
+          | error e' => rw [hrs] at h; cases h
+          | ok y =>
+            rw [hrs] at h
+            obtain ⟨ds', hds, hri⟩ := (IH y).2 hrs
+            refine ⟨_, by rw [hds], ?_⟩
+            simp only [readItems, resolve, hrd]
+            simp only at hri
+            rw [hri]
+            obtain ⟨vs, fp⟩ := y
+            simpa using h
+
 end BM.C06
